@@ -55,77 +55,9 @@ VX_SHV_OP(shr_vec_assign, V(a >>= b), m_shr(a, unsigned(bits_of(b))), amount_ok(
 VX_SHV_OP(rotl_vec, avel::rotl(a, b), m_rotl(a, unsigned(bits_of(b) & (nbits<S>() - 1))), true)
 VX_SHV_OP(rotr_vec, avel::rotr(a, b), m_rotr(a, unsigned(bits_of(b) & (nbits<S>() - 1))), true)
 
-// ---- uniform scalar amounts: the amount is table[index], index = lane 0 of b (low byte) and c (high byte) ----------------
-
-inline const std::vector<long long>& shift_table(unsigned B) {
-    static std::vector<long long> t[4];
-    std::vector<long long>& v = t[B == 8 ? 0 : B == 16 ? 1 : B == 32 ? 2 : 3];
-    if (v.empty()) for (unsigned s = 0; s <= B; ++s) v.push_back(s);
-    return v;
-}
-inline const std::vector<long long>& rot_table(unsigned B) {
-    static std::vector<long long> t[4];
-    std::vector<long long>& v = t[B == 8 ? 0 : B == 16 ? 1 : B == 32 ? 2 : 3];
-    if (v.empty()) {
-        for (unsigned s = 0; s <= 2 * B + 1; ++s) v.push_back(s);
-        for (unsigned r = 0; r < B; r += (B > 16 ? 5 : 3)) { v.push_back(3ll * B + r); v.push_back(255ll * B + r); }
-        for (long long s = 1; s <= (long long)B + 1; ++s) v.push_back(-s);
-        const long long big[] = {1ll << 31, -(1ll << 31), (1ll << 31) + 3, -(1ll << 31) - 3, 1ll << 62, -(1ll << 62), (1ll << 62) + 7,
-                                 LLONG_MAX, LLONG_MIN, LLONG_MIN + 1, (1ll << 32) + 1, -(1ll << 32) - 1, 0x100, 0x1ff, -0x100, -0x101};
-        for (unsigned i = 0; i < sizeof(big) / sizeof(big[0]); ++i) v.push_back(big[i]);
-    }
-    return v;
-}
-template<class S> inline unsigned idx_of(S b, S c) { return unsigned(bits_of(b) & 0xff) | (unsigned(bits_of(c) & 0xff) << 8); }
-template<class V> inline unsigned idx_lane0(V b, V c) {
-    typename V::scalar tb[V::width], tc[V::width];
-    to_lanes(b, tb);
-    to_lanes(c, tc);
-    return idx_of(tb[0], tc[0]);
-}
-template<class V> inline long long sh_amt(V b, V c) { unsigned i = idx_lane0(b, c); const std::vector<long long>& t = shift_table(8 * sizeof(typename V::scalar)); return i < t.size() ? t[i] : 0; }
-template<class V> inline long long rt_amt(V b, V c) { unsigned i = idx_lane0(b, c); const std::vector<long long>& t = rot_table(8 * sizeof(typename V::scalar)); return i < t.size() ? t[i] : 0; }
-
-#define VX_SHS_OP(NAME, EXPR, TABLE, MODEL)                                                     \
-    struct NAME : OpBase {                                                                      \
-        static const int arity = 3;                                                             \
-        static const bool lane_pass = false;                                                    \
-        static const char* name() { return #NAME; }                                             \
-        template<class V> static auto apply(V a, V b, V c) VX_AUTO(EXPR)                        \
-        template<class S> static std::uint64_t model(S a, S b, S c) { const long long s = TABLE(nbits<S>())[idx_of(b, c)]; (void)s; return MODEL; } \
-        template<class S> static bool in_domain(S, S b, S c) { return idx_of(b, c) < TABLE(nbits<S>()).size(); } \
-        template<class S> static bool nontrivial(S a, S b, S c) { const long long s = TABLE(nbits<S>())[idx_of(b, c)]; return shift_nt(a, mod_bits(s, nbits<S>())) || s < 0 || s > (long long)nbits<S>(); } \
-    };
-VX_SHS_OP(shl_scalar, a << sh_amt(b, c), shift_table, m_shl(a, unsigned(s)))
-VX_SHS_OP(shr_scalar, a >> sh_amt(b, c), shift_table, m_shr(a, unsigned(s)))
-VX_SHS_OP(shl_scalar_assign, V(a <<= sh_amt(b, c)), shift_table, m_shl(a, unsigned(s)))
-VX_SHS_OP(shr_scalar_assign, V(a >>= sh_amt(b, c)), shift_table, m_shr(a, unsigned(s)))
-VX_SHS_OP(rotl_scalar, avel::rotl(un(a), rt_amt(b, c)), rot_table, m_rotl(a, mod_bits(s, nbits<S>())))
-VX_SHS_OP(rotr_scalar, avel::rotr(un(a), rt_amt(b, c)), rot_table, m_rotr(a, mod_bits(s, nbits<S>())))
-// the scalar-wrapper overloads of sh_amt/rt_amt (Sc<S> has no lanes to unpack)
-template<class S> inline long long sh_amt(Sc<S> b, Sc<S> c) { unsigned i = idx_of(b.v, c.v); const std::vector<long long>& t = shift_table(8 * sizeof(S)); return i < t.size() ? t[i] : 0; }
-template<class S> inline long long rt_amt(Sc<S> b, Sc<S> c) { unsigned i = idx_of(b.v, c.v); const std::vector<long long>& t = rot_table(8 * sizeof(S)); return i < t.size() ? t[i] : 0; }
-
-// values (padded to a multiple of 64 so that a vector never straddles two amounts) x amount index
-template<class S>
-struct DomUniform {
-    std::vector<S> A;
-    unsigned namt;
-    std::string nm;
-    DomUniform(const std::vector<S>& a, unsigned n, const std::string& name) : A(a), namt(n), nm(name) {
-        std::uint64_t k = 0x0123456789ABCDEFull;
-        while (A.size() % 64) { typename uint_of<S>::type u = (typename uint_of<S>::type)(k); S s; std::memcpy(&s, &u, sizeof s); A.push_back(s); k = k * 6364136223846793005ull + 1442695040888963407ull; }
-    }
-    std::uint64_t size() const { return std::uint64_t(A.size()) * namt; }
-    void get(std::uint64_t i, S& a, S& b, S& c) const {
-        a = A[i % A.size()];
-        unsigned idx = unsigned(i / A.size());
-        typename uint_of<S>::type lo = (typename uint_of<S>::type)(idx & 0xff), hi = (typename uint_of<S>::type)(idx >> 8);
-        std::memcpy(&b, &lo, sizeof b);
-        std::memcpy(&c, &hi, sizeof c);
-    }
-    std::string name() const { return nm; }
-};
+}  // namespace vx
+#include "ops_shift.hpp"
+namespace vx {
 
 template<class V>
 struct PerType {
